@@ -6,6 +6,7 @@ import Driver.C02
 import Driver.C17
 import Driver.C06
 import Driver.Relay
+import Driver.C16
 
 def main (args : List String) : IO UInt32 := do
   match args with
@@ -17,4 +18,5 @@ def main (args : List String) : IO UInt32 := do
   | ["c17"] => Redproxy.Driver.C17.main; return 0
   | ["c06"] => Redproxy.Driver.C06.main; return 0
   | ["relay"] => Redproxy.Driver.Relay.main; return 0
+  | ["c16"] => Redproxy.Driver.C16.main; return 0
   | _ => IO.eprintln "usage: rpmodel <mode>  (cases on stdin, one output line per case on stdout)"; return 2
